@@ -307,8 +307,9 @@ def run_c11(prop, tier):
     ncont = 1 if tier == "quick" else 6
     for ci in range(ncont):
         for mode in ("two", "none", "one"):
-            # pack ids need not be 1..n: the extra packs of the 'two' packaging (and of every other container in thorough) get ids 3 and 9
-            sparse = [3, 9] if (mode == "two" or ci % 2 == 1) else None
+            # pack ids need not be 1..n: the extra packs of the 'two' packaging (and of every other container in thorough) get ids 9 and 3
+            # (and need not be listed in increasing order in the manifest)
+            sparse = [9, 3] if (mode == "two" or ci % 2 == 1) else None
             scn = L.make_container(rng, 200 + ci, n_entries=6, n_extras=2, concat=mode, extra_ids=sparse)
             other = L.make_container(rng, 300 + ci, n_entries=4, n_extras=2, concat=mode, extra_ids=sparse)
             w = R.create(scn, "w")
